@@ -238,6 +238,17 @@ func runC01(c *Ctx) {
 		}
 		zero := make([]byte, 32)
 		roundScript("hashed/after-k=0", kp, c.rng.Bytes(32), dataScript(zero, be32(curveN), be32(randK(c))))
+		// the all-zero candidate AFTER a rejected non-zero one (state carried between candidates: seeded C01-c, C02-c)
+		ff := make([]byte, 32)
+		for i := range ff {
+			ff[i] = 0xff
+		}
+		roundScript("hashed/zero-after-k>=n", kp, c.rng.Bytes(32), dataScript(ff, zero, be32(randK(c))))
+		roundScript("hashed/zero-after-k=n", kp, c.rng.Bytes(32), dataScript(be32(curveN), zero, be32(randK(c))))
+		for _, rule := range []string{"r=0", "r+k=n", "s=0"} {
+			kb, e := craftReject(c, rule, kp.d)
+			roundScript("hashed/zero-after-"+rule, kp, e, dataScript(be32(kb), zero, be32(randK(c))))
+		}
 		for _, tv := range []int64{1, 2, 15, 16, 0x3ff, 0x1000, 0x2001} {
 			k4 := randK(c)
 			x1 := affMul(k4, affG()).x
